@@ -175,6 +175,25 @@ Definition run_search (ts : list tok) : list tok :=
 
 Definition K_refparse := Eval compute in s2l "refparse".
 
+Definition K_refsearch := Eval compute in s2l "refsearch".
+
+(** refsearch <text> <doc> : the specification end to end — the reference parser (documented table, nothing read from
+    the source) followed by evaluation; a parse error carries no position (the oracle only says "not a sentence") *)
+Definition run_refsearch (ts : list tok) : list tok :=
+  match ts with
+  | t :: r =>
+      match parse_str t, rd_value (S (length r)) r with
+      | Some text, Some (d, []) =>
+          match ref_parse text with
+          | Ok a => pr_res text pr_value (search_ast fuel_default default_runtime a d)
+          | Err _ => [K_ERR; K_parse]
+          | Trap => [K_TRAP] | OOF => [K_OOF] | Unmodelled => [K_UNMODELLED]
+          end
+      | _, _ => bad
+      end
+  | [] => bad
+  end.
+
 (** refparse <text> : the reference parser (sentence oracle of C03/C04) *)
 Definition run_refparse (ts : list tok) : list tok :=
   match ts with
@@ -337,6 +356,7 @@ Definition run_hist (ts : list tok) : list tok :=
 Definition K_json := Eval compute in s2l "json".
 Definition K_ser := Eval compute in s2l "ser".
 Definition K_de := Eval compute in s2l "de".
+Definition K_serx := Eval compute in s2l "serx".
 Definition K_conv := Eval compute in s2l "conv".
 Definition K_T := [84]. Definition K_R := [82]. Definition K_V := [86].
 Definition K_var := Eval compute in s2l "var".
@@ -561,12 +581,14 @@ Definition run_tokens (ts : list tok) : list tok :=
       else if str_eqb k K_parse_k then run_parse r
       else if str_eqb k K_speceval then run_speceval r
       else if str_eqb k K_refparse then run_refparse r
+      else if str_eqb k K_refsearch then run_refsearch r
       else if str_eqb k K_hist then run_hist r
       else if str_eqb k K_json then run_json r
       else if str_eqb k K_cli then run_cli r
       else if str_eqb k K_threads then run_threads r
       else if str_eqb k K_ser then run_ser r
       else if str_eqb k K_de then [K_UNMODELLED]
+      else if str_eqb k K_serx then [K_UNMODELLED]
       else if str_eqb k K_conv then run_conv false r
       else if str_eqb k K_convspec then run_conv true r
       else if str_eqb k K_search then run_search r
